@@ -4,6 +4,7 @@ import CobyqaVerif.Alg.Tcg
 import CobyqaVerif.Alg.TcgImproveFast
 import CobyqaVerif.Alg.Ctcg
 import CobyqaVerif.Alg.Ntcg
+import CobyqaVerif.Alg.NtcgImprove
 import CobyqaVerif.Alg.Cauchy
 import CobyqaVerif.Alg.CauchyDir
 import CobyqaVerif.Alg.Spider
@@ -395,27 +396,42 @@ def rankOfN {n m : ℕ} (aub : Matrix (Fin m) (Fin n) Rat) (fl fu : Fin n → Bo
     (((listFin n).filter fun i => !(fl i && fu i)).map fun i => emb (fun k => if k = i then 1 else 0, fun _ => 0))
   (gramSchmidt rows).length
 
-/-- `Alg/Ntcg.lean nloop`, pass by pass on re-tabulated (extensionally equal) states; see `runCtcgPasses` -/
+/-- `Alg/NtcgImprove.lean nloopB` (the first loop with its `boundary_reached` flag), pass by pass on re-tabulated
+(extensionally equal) states; see `runCtcgPasses` -/
 def runNtcgPasses {n m p : ℕ} (P : Cobyqa.Ntcg.NProb n m p Rat) (Q : Cobyqa.Ntcg.NParams n m Rat) (O : Cobyqa.Ntcg.NOracle n m Rat)
     (fuel : ℕ) (stepA gsA : Array Rat) (gtA sdsA sdtA : Array Rat) (flA fuA fsA fbA : Array Bool) (residA : Array Rat) (k : ℕ) (reduct : Rat) :
-    Cobyqa.Ntcg.NSt n m Rat :=
+    Cobyqa.Ntcg.NSt n m Rat × Bool :=
   let s : Cobyqa.Ntcg.NSt n m Rat :=
     { step := fun i => stepA[i.val]!, gs := fun i => gsA[i.val]!, gt := fun j => gtA[j.val]!, sds := fun i => sdsA[i.val]!,
       sdt := fun j => sdtA[j.val]!, freeL := fun i => flA[i.val]!, freeU := fun i => fuA[i.val]!, freeSlack := fun j => fsA[j.val]!,
       freeUb := fun j => fbA[j.val]!, resid := fun j => residA[j.val]!, k := k, reduct := reduct }
   match fuel with
-  | 0 => s
+  | 0 => (s, false)
   | fuel' + 1 =>
     if s.k + O.nAct s.freeL s.freeU s.freeSlack s.freeUb < n + m then
       match Cobyqa.Ntcg.niter P Q O s with
       | .inl t => runNtcgPasses P Q O fuel' (Array.ofFn t.step) (Array.ofFn t.gs) (Array.ofFn t.gt) (Array.ofFn t.sds) (Array.ofFn t.sdt)
           (Array.ofFn t.freeL) (Array.ofFn t.freeU) (Array.ofFn t.freeSlack) (Array.ofFn t.freeUb) (Array.ofFn t.resid) t.k t.reduct
+      | .inr t => (t, Cobyqa.Ntcg.nBoundary P Q s)
+    else (s, false)
+
+/-- `Alg/NtcgImprove.lean niloop`, pass by pass on re-tabulated states -/
+def runNiPasses {n m p : ℕ} (P : Cobyqa.Ntcg.NProb n m p Rat) (R : Cobyqa.Tcg.IParams Rat)
+    (fuel : ℕ) (stepA gradA : Array Rat) (freeA : Array Bool) (reduct : Rat) : Cobyqa.Tcg.ISt n Rat :=
+  let s : Cobyqa.Tcg.ISt n Rat := { step := fun i => stepA[i.val]!, grad := fun i => gradA[i.val]!, free := fun i => freeA[i.val]!, reduct := reduct }
+  match fuel with
+  | 0 => s
+  | fuel' + 1 =>
+    if 0 < (Finset.univ.filter fun i => s.free i = true).card then
+      match Cobyqa.Ntcg.nipass P R s with
+      | .inl t => runNiPasses P R fuel' (Array.ofFn t.step) (Array.ofFn t.grad) (Array.ofFn t.free) t.reduct
       | .inr t => t
     else s
 
-/-- `ntcg n m p fuel | xl ; xu ; aub ; bub ; aeq ; beq ; delta`: the first phase of `normal_byrd_omojokun`
-(Alg/Ntcg.lean `ntcg`) with the checked exact projection -/
-def doNtcg (n m p fuel : ℕ) (parts : List String) : String :=
+/-- `ntcg n m p fuel fuel2 improve | xl ; xu ; aub ; bub ; aeq ; beq ; delta`: `normal_byrd_omojokun`
+(Alg/NtcgImprove.lean `nfull`: first phase, and with `improve = 1` the second one and its safeguard) with the checked exact
+projection -/
+def doNtcg (n m p fuel fuel2 : ℕ) (imp : Bool) (parts : List String) : String :=
   match parts with
   | [lo, hi, A, b, E, e, d] =>
     match optsOf lo, optsOf hi, ratsOf A, ratsOf b, ratsOf E, ratsOf e, ratsOf d with
@@ -435,9 +451,19 @@ def doNtcg (n m p fuel : ℕ) (parts : List String) : String :=
       let O : Cobyqa.Ntcg.NOracle n m Rat :=
         { proj := Cobyqa.Ntcg.checkedProjN P (proposeProjN P.aub), nAct := rankOfN P.aub }
       let s0 := Cobyqa.Ntcg.ninit P O
-      let st := (runNtcgPasses P Q O fuel (Array.ofFn s0.step) (Array.ofFn s0.gs) (Array.ofFn s0.gt) (Array.ofFn s0.sds) (Array.ofFn s0.sdt)
-        (Array.ofFn s0.freeL) (Array.ofFn s0.freeU) (Array.ofFn s0.freeSlack) (Array.ofFn s0.freeUb) (Array.ofFn s0.resid) s0.k s0.reduct).step
-      "ok " ++ " ".intercalate ((listFin n).map fun i => showRat (st i))
+      let r := runNtcgPasses P Q O fuel (Array.ofFn s0.step) (Array.ofFn s0.gs) (Array.ofFn s0.gt) (Array.ofFn s0.sds) (Array.ofFn s0.sdt)
+        (Array.ofFn s0.freeL) (Array.ofFn s0.freeU) (Array.ofFn s0.freeSlack) (Array.ofFn s0.freeUb) (Array.ofFn s0.resid) s0.k s0.reduct
+      let R : Cobyqa.Tcg.IParams Rat :=
+        { sqrtO := fun x => floatToRat (Float.sqrt (ratToFloat x)), tiny := 0, rtol := 1 / 100000000,
+          nsOf := fun t => (17 * t + 3).floor.toNat }
+      -- `nfull`: the second phase and its safeguard (`nimprove`)
+      let st : Fin n → Rat :=
+        if imp && r.2 then
+          let h := Cobyqa.Ntcg.handover P r.1
+          let fin := runNiPasses P R fuel2 (Array.ofFn h.step) (Array.ofFn h.grad) (Array.ofFn h.free) h.reduct
+          if Cobyqa.Ntcg.violation P fin.step > Cobyqa.Ntcg.violation P h.step then h.step else fin.step
+        else r.1.step
+      (if r.2 then "ok1 " else "ok0 ") ++ " ".intercalate ((listFin n).map fun i => showRat (st i))
     | _, _, _, _, _, _, _ => "bad-op"
   | _ => "bad-op"
 
@@ -523,10 +549,10 @@ def handleAlg (line : String) : String :=
     | ["kkt", n, m, me, r] => match n.toNat?, m.toNat?, me.toNat?, r.toNat? with
       | some n, some m, some me, some r => doKkt n m me r parts | _, _, _, _ => "bad-op"
     | ["tcg", n, fuel] => match n.toNat?, fuel.toNat? with | some n, some f => doTcg n f parts | _, _ => "bad-op"
-    | ["ntcg", n, m, p, fuel] =>
-      match n.toNat?, m.toNat?, p.toNat?, fuel.toNat? with
-      | some n, some m, some p, some f => doNtcg n m p f parts
-      | _, _, _, _ => "bad-op"
+    | ["ntcg", n, m, p, fuel, fuel2, imp] =>
+      match n.toNat?, m.toNat?, p.toNat?, fuel.toNat?, fuel2.toNat? with
+      | some n, some m, some p, some f, some f2 => doNtcg n m p f f2 (imp == "1") parts
+      | _, _, _, _, _ => "bad-op"
     | ["ctcg", n, m, p, fuel] =>
       match n.toNat?, m.toNat?, p.toNat?, fuel.toNat? with
       | some n, some m, some p, some f => doCtcg n m p f parts
